@@ -21,6 +21,7 @@ def gen_inputs(ctx):
     crossing = [(b - 2, b + 2) for b in bounds] + [(6, 10), (28, 36), (3, 19)]
     if q:
         crossing = [(6, 10), (28, 36), (98, 102)] + [rng.choice(crossing)]
+    assert all(0 <= en - st <= 32 for st, en in crossing + [iv for iv in intervals if iv[1] >= iv[0]]), "row cap of the trace specification"
     n = 0
     for net in ("main", "test"):
         for k in range(4 if q else 30):
